@@ -3,6 +3,7 @@
 Everything numeric travels as exact rationals: a Python float x is transmitted as fractions.Fraction(x)."""
 import os, sys, io, math, contextlib, importlib
 from fractions import Fraction as F
+import c20emit as E
 
 VERIF = os.path.dirname(os.path.dirname(os.path.abspath(__file__)))
 GEN_PATH = os.path.join(VERIF, "lean", "LitexModel", "Generated", "ClockRanges.lean")
@@ -350,6 +351,38 @@ def mk_cd(i):
     return ClockDomain("cd%d" % i)
 
 
+def cfg_numbers(cfg):
+    """the non-Signal entries of a compute_config() dict (what the emitted parameters are compared with)."""
+    return {k: v for k, v in cfg.items() if isinstance(v, (int, float, str)) or v is None}
+
+
+def one_instance(o, prims, sym):
+    """(canonical dict of the single emitted primitive, [violations])"""
+    insts = E.find_instances(o, prims)
+    if len(insts) != 1:
+        return {}, ["%d instances of %s emitted" % (len(insts), "/".join(prims))], None
+    return E.read_instance(insts[0], sym), [], insts[0]
+
+
+def port_expr(inst, kind, name):
+    from migen.fhdl.specials import Instance
+    cls = Instance.Input if kind == "i" else Instance.Output
+    for it in inst.items:
+        if isinstance(it, cls) and it.name == name:
+            return it.expr
+    return None
+
+
+def comb_drivers(o, sig):
+    from migen.fhdl.structure import _Assign
+    return [st.r for st in E._comb(o) if isinstance(st, _Assign) and st.l is sig]
+
+
+def emit_viol(want, real):
+    """placed parameters/ports == expectation from (configuration, request), plus the clock-domain wiring."""
+    return E.diff_dicts(want, real.get("emit") or {}, "emitted " + str(want.get("of"))) + list(real.get("wviol") or [])
+
+
 def rel_close(a, b, tol=F(1, 2 ** 44)):
     a, b = F(a), F(b)
     return a == b or abs(a - b) <= tol * max(abs(a), abs(b))
@@ -465,14 +498,33 @@ class Xilinx:
         try:
             o = mk_xilinx(cls, int(g))
             o.vco_margin = c["vm"]
+            reset0 = o.reset
+            cds = [mk_cd(i) for i in range(len(c["outs"]))]
+            bufs, wrs = self.bufs_of(c), self.resets_of(c)
+            ces = [Signal() if (b or "").lower() == "bufgce" else None for b in bufs]
             do_calls(c, lambda: o.register_clkin(Signal(), c["clkin"]),
-                     [lambda i=i, f=f, p=p, m=m: o.create_clkout(mk_cd(i), f, buf=c.get("buf"),
-                                                                 with_reset=bool(c.get("with_reset")), **kw_for(c, p, m))
+                     [lambda i=i, f=f, p=p, m=m: o.create_clkout(cds[i], f, buf=bufs[i], with_reset=wrs[i],
+                                                                 **({"ce": ces[i]} if ces[i] is not None else {}),
+                                                                 **kw_for(c, p, m))
                       for i, (f, p, m) in enumerate(c["outs"])])
             cfg = finalize_capture(o)
             again = o.compute_config() if c.get("twice") else cfg
         except Exception as e:
             return {"status": status_of(e), "exc": repr(e)}
+        sym = E.Sym().add(o.clkin, "clkin").add(o.locked, "locked").add(o.power_down, "power_down").add(reset0, "reset0")
+        for n, t in o.clkouts.items():
+            sym.add(t[0], "clkout%d" % n)
+        emit, wviol, inst = one_instance(o, (prim_of,), sym)
+        if inst is not None:
+            nst = E.reset_chain(o, port_expr(inst, "i", "RST"), reset0, "FDCE", "C", "D", "Q", {"CE": "c1w1", "CLR": "c0w1"},
+                                o.clkin, sym)
+            emit["i_RST"] = "reset0>>FDCE*%d" % nst
+            wviol += E.clock_wiring(o, cds, [o.clkouts[n][0] for n in range(len(cds))], sym, bufs=bufs, with_reset=wrs)
+            for i, ce in enumerate(ces):
+                if ce is not None:
+                    bg = [b for b in E.find_instances(o, ("BUFGCE",)) if port_expr(b, "i", "I") is o.clkouts[i][0]]
+                    if len(bg) != 1 or port_expr(bg[0], "i", "CE") is not ce:
+                        wviol.append("BUFGCE of clkout%d is not enabled by the given ce signal" % i)
         outs = []
         for n in range(len(c["outs"])):
             outs.append((F(cfg["clkout%d_divide" % n]), F(cfg["clkout%d_freq" % n]), F(cfg["clkout%d_phase" % n])))
@@ -490,7 +542,19 @@ class Xilinx:
             if x_param_names().match(k):
                 num[k] = F(v)
         return {"status": "ok", "divclk": cfg["divclk_divide"], "mult": F(cfg["clkfbout_mult"]), "vco": F(cfg["vco"]),
-                "outs": outs, "params": num, "wiring": bool(wiring), "period": period, "idempotent": again == cfg}
+                "outs": outs, "params": num, "wiring": bool(wiring), "period": period, "idempotent": again == cfg,
+                "cfg": cfg_numbers(cfg), "emit": emit, "wviol": wviol, "of": prim_of}
+
+    @staticmethod
+    def bufs_of(c):
+        """per-output `buf` option: c["bufs"] (list) or the same c["buf"] for every output."""
+        k = len(c["outs"])
+        return list(c["bufs"]) if c.get("bufs") else [c.get("buf")] * k
+
+    @staticmethod
+    def resets_of(c):
+        k = len(c["outs"])
+        return [bool(x) for x in c["with_resets"]] if c.get("with_resets") else [bool(c.get("with_reset"))] * k
 
     # --- model answer
     def parse(self, c, line):
@@ -647,6 +711,7 @@ class Xilinx:
                     if not rel_close(vco / dv, fq):
                         viol.append("clkout%d reported freq differs from vco/divider" % n)
             viol += self.params_check(c, real)
+            viol += emit_viol(E.expect_xilinx(c["dev"].split(":")[0], real["of"], c["clkin"], real["cfg"], c["outs"]), real)
             if not real["wiring"]:
                 viol.append("primitive output ports are not connected to the requested clock outputs in order")
             if real["period"] is None or not rel_close(F(real["period"]) * clkin, F(10 ** 9), F(1, 10 ** 12)):
@@ -743,6 +808,9 @@ class Xilinx:
         c = {"fam": "xilinx", "dev": d["name"], "clkin": clkin, "vm": vm, "outs": outs,
              "buf": rng.choice([None, None, "bufg", "bufr", "bufh", "bufio", "BUFG"]), "with_reset": rng.random() < 0.2,
              "twice": rng.random() < 0.15 and not usp}
+        if rng.random() < 0.35:       # a different buffer / reset option per output
+            c["bufs"] = [rng.choice([None, "bufg", "bufr", "bufh", "bufio", "bufgce", "BUFG"]) for _ in outs]
+            c["with_resets"] = [int(rng.random() < 0.5) for _ in outs]
         return gen_flags(rng, c)
 
 
@@ -798,11 +866,13 @@ class Ecp5:
         from migen import Signal
         from litex.soc.cores.clock.lattice_ecp5 import ECP5PLL
         try:
-            o = ECP5PLL()
+            o = ECP5PLL(**({"bel": c["bel"]} if c.get("bel") else {}))
             if c["dpa_en"]:
                 o.expose_dpa()
+            cds = [mk_cd(i) for i in range(len(c["outs"]))]
+            wrs = [bool(x) for x in c["with_resets"]] if c.get("with_resets") else [False] * len(cds)
             do_calls(c, lambda: o.register_clkin(Signal(), c["clkin"]),
-                     [lambda i=i, f=f, p=p, m=m, dpa=dpa: o.create_clkout(mk_cd(i), f, with_reset=False,
+                     [lambda i=i, f=f, p=p, m=m, dpa=dpa: o.create_clkout(cds[i], f, with_reset=wrs[i],
                                                                         **({} if c.get("defaults") and dpa else {"uses_dpa": bool(dpa)}),
                                                                         **kw_for(c, p, m))
                       for i, (f, p, m, dpa) in enumerate(c["outs"])])
@@ -820,8 +890,22 @@ class Ecp5:
                             P.get("CLKO%s_ENABLE" % l)))
         ports = instance_outputs(o, ("EHXPLLL",))
         wiring = all(ports.get("CLKO" + self.N2L[n]) is o.clkouts[n][0] for n in range(nd))
+        sym = E.Sym().add(o.clkin, "clkin").add(o.locked, "locked").add(o.reset, "reset").add(o.stdby, "stdby")
+        for nm in ("phase_sel", "phase_dir", "phase_step", "phase_load"):
+            sym.add(getattr(o, nm, None), nm)
+        for n, t in o.clkouts.items():
+            sym.add(t[0], "clkout%d" % n)
+        insts = E.find_instances(o, ("EHXPLLL",))
+        if len(insts) == 1:
+            sym.add(port_expr(insts[0], "o", "LOCK"), "lock_raw")
+        emit, wviol, inst = one_instance(o, ("EHXPLLL",), sym)
+        if inst is not None:
+            wviol += E.clock_wiring(o, cds, [o.clkouts[n][0] for n in range(len(cds))], sym, with_reset=wrs)
+            drv = [sym.tok(x) for x in comb_drivers(o, o.locked)]
+            if drv != ["(lock_raw&~reset)"]:
+                wviol.append("locked is driven by %s, expected LOCK & ~reset" % drv)
         return {"status": "ok", "clki": cfg["clki_div"], "fb": cfg["clkfb_div"], "clkfb": cfg["clkfb"], "vco": F(cfg["vco"]),
-                "wiring": bool(wiring),
+                "wiring": bool(wiring), "cfg": cfg_numbers(cfg), "emit": emit, "wviol": wviol,
                 "divs": divs, "freqs": [F(cfg["clko%d_freq" % n]) for n in range(len(c["outs"]))],
                 "P": {"CLKI_DIV": P.get("CLKI_DIV"), "CLKFB_DIV": P.get("CLKFB_DIV"), "FEEDBK_PATH": P.get("FEEDBK_PATH"),
                       "per": per}}
@@ -968,6 +1052,8 @@ class Ecp5:
                         viol.append("clko%d: %s Hz vs requested %s Hz margin %s" % (n, float(vco / divs[n]), float(f), float(m)))
             if not real["wiring"]:
                 viol.append("EHXPLLL output ports are not connected to the requested clock outputs in order")
+            if not viol:
+                viol += emit_viol(E.expect_ecp5(c["clkin"], real["cfg"], c["outs"], len(divs), dpa_en, c.get("bel")), real)
             # instance parameters
             P = real["P"]
             if P["CLKI_DIV"] != clki or P["CLKFB_DIV"] != fb or P["FEEDBK_PATH"] != "INT_O" + self.N2L.get(cf, "?"):
@@ -1033,7 +1119,12 @@ class Ecp5:
                                 float(rng.randrange(3_125_000, 400_000_001))])
             f = min(max(f, float(flo)), float(fhi))
             outs.append((f, p, m, int(rng.random() < 0.3)))
-        return gen_flags(rng, {"fam": "ecp5", "clkin": clkin, "dpa_en": dpa_en, "outs": outs})
+        c = {"fam": "ecp5", "clkin": clkin, "dpa_en": dpa_en, "outs": outs}
+        if rng.random() < 0.4:
+            c["with_resets"] = [int(rng.random() < 0.6) for _ in outs]
+        if rng.random() < 0.1:
+            c["bel"] = "X%d/Y%d/EHXPLL_%s" % (rng.randrange(90), rng.randrange(90), rng.choice(["LL", "UR"]))
+        return gen_flags(rng, c)
 
 
 # ------------------------------------------------------------------------------------------------------------------
@@ -1281,15 +1372,21 @@ class Ice40:
         from litex.soc.cores.clock.lattice_ice40 import iCE40PLL
         try:
             o = iCE40PLL(primitive=c.get("prim", "SB_PLL40_CORE"))
+            cd0 = mk_cd(0)
             do_calls(c, lambda: o.register_clkin(Signal(), c["clkin"]),
-                     [lambda: o.create_clkout(mk_cd(0), c["out"][0], with_reset=False,
+                     [lambda: o.create_clkout(cd0, c["out"][0], with_reset=bool(c.get("with_reset")),
                                               **kw_for(c, 0, c["out"][1], with_phase=False))])
             cfg = finalize_capture(o)
             again = o.compute_config() if c.get("twice") else cfg
         except Exception as e:
             return {"status": status_of(e), "exc": repr(e)}
         P = instance_params(o, ("SB_PLL40_CORE", "SB_PLL40_PAD")) or {}
+        sym = E.Sym().add(o.clkin, "clkin").add(o.locked, "locked").add(o.reset, "reset").add(o.clkouts[0][0], "clkout0")
+        emit, wviol, inst = one_instance(o, ("SB_PLL40_CORE", "SB_PLL40_PAD"), sym)
+        if inst is not None:
+            wviol += E.clock_wiring(o, [cd0], [o.clkouts[0][0]], sym, with_reset=[bool(c.get("with_reset"))])
         return {"status": "ok", "divr": cfg["divr"], "divf": cfg["divf"], "divq": cfg["divq"], "vco": F(cfg["vco"]),
+                "cfg": cfg_numbers(cfg), "emit": emit, "wviol": wviol,
                 "freq": F(cfg["clkout_freq"]),
                 "wiring": instance_outputs(o, ("SB_PLL40_CORE", "SB_PLL40_PAD")).get("PLLOUTGLOBAL") is o.clkouts[0][0],
                 "idempotent": again == cfg,
@@ -1380,6 +1477,7 @@ class Ice40:
                 viol.append("instance parameters %s do not equal the configuration (filter range %s)" % (P, want))
             if not real["wiring"]:
                 viol.append("PLLOUTGLOBAL is not connected to the requested clock output")
+            viol += emit_viol(E.expect_ice40(c.get("prim", "SB_PLL40_CORE"), c["clkin"], real["cfg"]), real)
             if not real["idempotent"]:
                 viol.append("a second compute_config() call returns a different configuration")
         elif real["status"] == "rejected":
@@ -1414,7 +1512,7 @@ class Ice40:
             f = rng.choice([16e6, 24e6, 48e6, 50e6, 100e6, 133.333e6, float(rng.randrange(16_000_000, 275_000_000))])
         f = min(max(f, float(d["clko_freq"][0])), float(d["clko_freq"][1]))
         c = {"fam": "ice40", "clkin": clkin, "out": (f, m), "prim": rng.choice(["SB_PLL40_CORE", "SB_PLL40_PAD"]),
-             "twice": rng.random() < 0.3}
+             "twice": rng.random() < 0.3, "with_reset": int(rng.random() < 0.4)}
         return gen_flags(rng, c)
 
 
@@ -1461,6 +1559,13 @@ class Nx:
                 per.append((P.get("DIV" + l), P.get("DEL" + l), P.get("PHI" + l), P.get("ENCLK_CLKO" + self.N2L[n])))
             ports = instance_outputs(o, ("PLL",))
             r["wiring"] = all(ports.get("CLKO" + self.N2L[n]) is cds[n].clk for n in range(len(c["outs"])))
+            sym = E.Sym().add(o.clkin, "clkin").add(o.locked, "locked").add(o.reset, "reset")
+            for n, cd in enumerate(cds):
+                sym.add(cd.clk, "clkout%d" % n)
+            r["emit"], r["wviol"], inst = one_instance(o, ("PLL",), sym)
+            if inst is not None and inst.name_override != o.name:
+                r["wviol"].append("instance name %r differs from the helper's name %r" % (inst.name_override, o.name))
+            r["cfg"] = cfg_numbers(cfg)
             r["P"] = {"REF_MMD_DIG": P.get("REF_MMD_DIG"), "DIVF": P.get("DIVF"), "DELF": P.get("DELF"),
                       "FBK_MMD_DIG": P.get("FBK_MMD_DIG"), "SEL_FBK": P.get("SEL_FBK"), "per": per}
         return r
@@ -1585,6 +1690,10 @@ class Nx:
                     want_del = int((1 + outs[n][1] / 360) * divs[n]) - 1
                     if dx != str(divs[n] - 1) or dl != str(want_del) or en != "ENABLED":
                         viol.append("CLKO%s DIV/DEL = %s/%s for div %s phase %s" % (self.N2L[n], dx, dl, divs[n], float(outs[n][1])))
+                want = E.expect_nx(real["cfg"], c["outs"])
+                got = dict(real.get("emit") or {})
+                got.pop("p_REF_MMD_DIG", None)          # handled below (open finding)
+                viol += E.diff_dicts(want, got, "emitted PLL") + list(real.get("wviol") or [])
                 if P["REF_MMD_DIG"] != str(clki):
                     region = region or "C20-nx-clki-div-not-placed"   # input divider not placed: open finding
         elif real["status"] == "rejected":
@@ -1714,12 +1823,27 @@ class NxOscFin:
         from litex.soc.cores.clock.lattice_nx import NXOSCA
         try:
             o = NXOSCA()
+            cds = [mk_cd(0), mk_cd(1), mk_cd(2)]
             if c.get("hf"):
-                o.create_hf_clk(mk_cd(0), c["hf"][0], margin=c["hf"][1])
-            o.create_hfsdc_clk(mk_cd(1), c["hfsdc"][0], margin=c["hfsdc"][1])
+                o.create_hf_clk(cds[0], c["hf"][0], margin=c["hf"][1])
+            o.create_hfsdc_clk(cds[1], c["hfsdc"][0], margin=c["hfsdc"][1])
+            if c.get("lf"):
+                o.create_lf_clk(cds[2])
             o.finalize()
             P = instance_params(o, ("OSCA",)) or {}
-            return {"status": "ok", "hf_div": P.get("HF_CLK_DIV"), "div": int(P.get("HF_SED_SEC_DIV"))}
+            sym = E.Sym()
+            if c.get("hf"):
+                sym.add(o.hf_clk_out[0], "hf")
+            sym.add(o.hfsdc_clk_out[0], "hfsdc")
+            if c.get("lf"):
+                sym.add(o.lf_clk_out, "lf")
+            emit, wviol, inst = one_instance(o, ("OSCA",), sym)
+            for i, (sig, on) in enumerate(((o.hf_clk_out[0] if c.get("hf") else None, c.get("hf")),
+                                           (o.hfsdc_clk_out[0], True), (o.lf_clk_out, c.get("lf")))):
+                if on and comb_drivers(o, cds[i].clk) != [sig]:
+                    wviol.append("clock domain %d is not driven from its oscillator output" % i)
+            return {"status": "ok", "hf_div": P.get("HF_CLK_DIV"), "div": int(P.get("HF_SED_SEC_DIV")), "emit": emit,
+                    "wviol": wviol}
         except Exception as e:
             return {"status": status_of(e), "exc": repr(e)}
 
@@ -1745,6 +1869,8 @@ class NxOscFin:
                     fl.cmp_le(abs(hf / (x + 1) - f), f * m, False, "margin", scale=f)
                 if not (abs(hf / (dv + 1) - f) <= f * m + SLACK * f):
                     viol.append("%s=%d gives %s Hz, requested %s Hz margin %s" % (nm, dv, float(hf / (dv + 1)), float(f), float(m)))
+            # every placed item: the divisors are taken from the instance (checked against their requests above)
+            viol += emit_viol(E.expect_nxosc(real["hf_div"] if c.get("hf") else None, real["div"], c.get("lf")), real)
         elif real["status"] == "crash":
             viol.append("unexpected exception " + real.get("exc", ""))
         return viol, fl.borderline, fl.why, None
@@ -1752,7 +1878,7 @@ class NxOscFin:
     def gen(self, rng):
         hf = self.d["hf"]
         mk = lambda: (float(hf / rng.randrange(1, 256)), rng.choice([0.01, 0.05]))
-        return {"fam": "nxoscfin", "hf": mk() if rng.random() < 0.8 else None, "hfsdc": mk()}
+        return {"fam": "nxoscfin", "hf": mk() if rng.random() < 0.8 else None, "hfsdc": mk(), "lf": int(rng.random() < 0.4)}
 
 
 # ------------------------------------------------------------------------------------------------------------------
@@ -1775,20 +1901,43 @@ class Intel:
         try:
             o = mk_intel(cls, g)
             o.vco_margin = c["vm"]
+            reset0 = o.reset
+            cds = [mk_cd(i) for i in range(len(c["outs"]))]
+            wrs = [bool(x) for x in c["with_resets"]] if c.get("with_resets") else [False] * len(cds)
             do_calls(c, lambda: o.register_clkin(Signal(), c["clkin"]),
-                     [lambda i=i, f=f, p=p, m=m: o.create_clkout(mk_cd(i), f, with_reset=False, **kw_for(c, p, m))
+                     [lambda i=i, f=f, p=p, m=m: o.create_clkout(cds[i], f, with_reset=wrs[i], **kw_for(c, p, m))
                       for i, (f, p, m) in enumerate(c["outs"])])
             cfg = finalize_capture(o)
         except Exception as e:
             return {"status": status_of(e), "exc": repr(e)}
         P = instance_params(o, ("ALTPLL",)) or {}
+        sym = E.Sym().add(o.clkin, "clkin").add(o.locked, "locked").add(reset0, "reset0")
+        for n, t in o.clkouts.items():
+            sym.add(t[0], "clkout%d" % n)
+        insts = E.find_instances(o, ("ALTPLL",))
+        if len(insts) == 1:
+            sym.add(port_expr(insts[0], "o", "CLK"), "clks")
+        emit, wviol, inst = one_instance(o, ("ALTPLL",), sym)
+        if inst is not None:
+            nst = E.reset_chain(o, port_expr(inst, "i", "ARESET"), reset0, "DFFE", "clk", "d", "q",
+                                {"ena": "c1w1", "clrn": "c1w1", "prn": "c1w1"}, o.clkin, sym)
+            emit["i_ARESET"] = "reset0>>DFFE*%d" % nst
+            clks = port_expr(inst, "o", "CLK")
+            if clks is None or len(clks) != len(cds):
+                wviol.append("CLK port is %s bits wide for %d outputs" % (None if clks is None else len(clks), len(cds)))
+            for n in range(len(cds)):
+                drv = [sym.tok(x) for x in comb_drivers(o, o.clkouts[n][0])]
+                if drv != ["clks[%d:%d]" % (n, n + 1)]:
+                    wviol.append("clkout%d is driven by %s, expected CLK[%d]" % (n, drv, n))
+            wviol += E.clock_wiring(o, cds, [o.clkouts[n][0] for n in range(len(cds))], sym, with_reset=wrs)
         if P.get("INCLK0_INPUT_FREQUENCY") != int(1e12 / c["clkin"]):
             return {"status": "crash", "exc": "INCLK0_INPUT_FREQUENCY %s for clkin %s" % (P.get("INCLK0_INPUT_FREQUENCY"), c["clkin"])}
         k = len(c["outs"])
         return {"status": "ok", "m": cfg["m"], "vco": F(cfg["vco"]),
                 "divs": [F(cfg["clk%d_divide" % n]) for n in range(k)], "freqs": [F(cfg["clk%d_freq" % n]) for n in range(k)],
                 "P": [(P.get("CLK%d_DIVIDE_BY" % n), P.get("CLK%d_MULTIPLY_BY" % n), P.get("CLK%d_PHASE_SHIFT" % n)) for n in range(k)],
-                "extra": sorted(x for x in P if x.startswith("CLK") and x.endswith("_DIVIDE_BY") and int(x[3:-10]) >= k)}
+                "extra": sorted(x for x in P if x.startswith("CLK") and x.endswith("_DIVIDE_BY") and int(x[3:-10]) >= k),
+                "cfg": cfg_numbers(cfg), "emit": emit, "wviol": wviol}
 
     def parse(self, c, line):
         if line == "none":
@@ -1926,6 +2075,8 @@ class Intel:
                     viol.append("CLK%d_PHASE_SHIFT %s ps, expected %s" % (i, ps, float(want_ps)))
             if real["extra"]:
                 viol.append("parameters for unrequested outputs " + str(real["extra"]))
+            if not viol:
+                viol += emit_viol(E.expect_intel(c["clkin"], real["cfg"], c["outs"], d["nmax"]), real)
         elif real["status"] == "rejected":
             if robust is not None:
                 viol.append("refused although n=%s m=%s satisfies the request" % robust)
@@ -1972,7 +2123,10 @@ class Intel:
                 f = rng.choice([25e6, 50e6, 100e6, 125e6, 133.333e6, 148.5e6, 200e6, 300e6, 48e6, 12.288e6, 74.25e6,
                                 float(rng.randrange(2_000_000, 450_000_000))])
             outs.append((f, p, m))
-        return gen_flags(rng, {"fam": "intel", "dev": d["name"], "clkin": clkin, "vm": vm, "outs": outs})
+        c = {"fam": "intel", "dev": d["name"], "clkin": clkin, "vm": vm, "outs": outs}
+        if rng.random() < 0.4:
+            c["with_resets"] = [int(rng.random() < 0.6) for _ in outs]
+        return gen_flags(rng, c)
 
 
 # ------------------------------------------------------------------------------------------------------------------
@@ -1996,13 +2150,21 @@ class Gw1n:
         try:
             o = mk_gowin(c["dev"])
             o.vco_margin = c["vm"]
+            cds = [mk_cd(i) for i in range(len(c["outs"]))]
+            wrs = [bool(x) for x in c["with_resets"]] if c.get("with_resets") else [False] * len(cds)
             do_calls(c, lambda: o.register_clkin(Signal(), c["clkin"]),
-                     [lambda i=i, f=f, p=p, m=m: o.create_clkout(mk_cd(i), f, with_reset=False, **kw_for(c, p, m))
+                     [lambda i=i, f=f, p=p, m=m: o.create_clkout(cds[i], f, with_reset=wrs[i], **kw_for(c, p, m))
                       for i, (f, p, m) in enumerate(c["outs"])])
             cfg = finalize_capture(o)
         except Exception as e:
             return {"status": status_of(e), "exc": repr(e)}
         P = instance_params(o, ("rPLL", "PLLVR")) or {}
+        sym = E.Sym().add(o.clkin, "clkin").add(o.locked, "locked").add(o.reset, "reset")
+        for n, t in o.clkouts.items():
+            sym.add(t[0], "clkout%d" % n)
+        emit, wviol, inst = one_instance(o, ("rPLL", "PLLVR"), sym)
+        if inst is not None:
+            wviol += E.clock_wiring(o, cds, [o.clkouts[n][0] for n in range(len(cds))], sym, with_reset=wrs, rst_tok="reset")
         if P.get("FCLKIN") != str(c["clkin"] / 1e6):
             return {"status": "crash", "exc": "FCLKIN %s for clkin %s" % (P.get("FCLKIN"), c["clkin"])}
         ports = instance_outputs(o, ("rPLL", "PLLVR"))
@@ -2017,6 +2179,7 @@ class Gw1n:
                     pinmap[pin] = i
         return {"status": "ok", "idiv": cfg["idiv"], "fdiv": cfg["fdiv"], "odiv": cfg["odiv"], "sdiv": cfg["SDIV_SEL"],
                 "psda": int(cfg["PSDA_SEL"], 2), "vco": F(cfg["vco"]), "pinmap": pinmap,
+                "cfg": cfg_numbers(cfg), "emit": emit, "wviol": wviol,
                 "P": {k: P.get(k) for k in ("IDIV_SEL", "FBDIV_SEL", "ODIV_SEL", "DYN_SDIV_SEL", "PSDA_SEL")}}
 
     def parse(self, c, line):
@@ -2119,6 +2282,27 @@ class Gw1n:
                 P = real["P"]
                 if (P["IDIV_SEL"], P["FBDIV_SEL"], P["ODIV_SEL"], P["DYN_SDIV_SEL"]) != (idiv - 1, fdiv - 1, odiv, real["sdiv"]):
                     viol.append("instance parameters %s do not equal the configuration" % (P,))
+                _, _, _, devname, device = next(g for g in GOWIN if g[0] == c["dev"])
+                viol += emit_viol(E.expect_gw1n(devname, device, c["clkin"], real["cfg"], real["pinmap"], c["outs"]), real)
+                # the source selector the configuration carries must itself follow the request's phase
+                for pin in ("CLKOUTD", "CLKOUTD3"):
+                    if pin in real["pinmap"]:
+                        want = "CLKOUT" if outs[real["pinmap"][pin]][1] == 0 else "CLKOUTP"
+                        if real["cfg"].get(pin + "_SRC") != want:
+                            viol.append("configuration %s_SRC=%s for a clock requested with phase %s" % (
+                                pin, real["cfg"].get(pin + "_SRC"), float(outs[real["pinmap"][pin]][1])))
+                # the phase of every clock recomputed from the emitted taps: PSDA_SEL*22.5 on CLKOUTP, 0 on CLKOUT
+                em = real.get("emit") or {}
+                try:
+                    shift = int(em.get("p_PSDA_SEL", "0"), 2) * F(45, 2)
+                except (TypeError, ValueError):
+                    shift = None
+                for pin, i in real["pinmap"].items():
+                    tap = {"CLKOUT": "CLKOUT", "CLKOUTP": "CLKOUTP"}.get(pin) or em.get("p_%s_SRC" % pin)
+                    ph = F(0) if tap == "CLKOUT" else shift
+                    if ph is None or abs(ph - outs[i][1]) >= F(45, 2):
+                        viol.append("clock %d on %s is taken from the %s tap (%s deg), requested phase %s" % (
+                            i, pin, tap, None if ph is None else float(ph), float(outs[i][1])))
         elif real["status"] == "rejected":
             if "No PLL config found" in real.get("exc", "") and robust is not None:
                 viol.append("refused although idiv=%s fdiv=%s odiv=%s satisfies the request" % robust)
@@ -2165,7 +2349,31 @@ class Gw1n:
             else:
                 f = rng.choice([27e6, 54e6, 108e6, 50e6, 100e6, 25e6, 125e6, 36e6, 72e6, float(rng.randrange(3_000_000, 400_000_000))])
             outs.append((f, p, m))
-        return gen_flags(rng, {"fam": "gw1n", "dev": d["name"], "clkin": clkin, "vm": vm, "outs": outs})
+        c = {"fam": "gw1n", "dev": d["name"], "clkin": clkin, "vm": vm, "outs": outs}
+        if rng.random() < 0.4:
+            c["with_resets"] = [int(rng.random() < 0.6) for _ in outs]
+        return gen_flags(rng, c)
+
+    def directed(self):
+        """every output pin (CLKOUT, CLKOUTP, CLKOUTD, CLKOUTD3) in every combination with every phase class, on an rPLL
+        and a PLLVR device: 27 MHz in, 90 / 108 MHz base (GW1NR / GW1NS)."""
+        out = []
+        for dev, base in (("GW1NR", 90e6), ("GW1NS:C7/I6", 108e6), ("GW2A", 90e6), ("GW1N", 90e6)):
+            for ph in (90, 180, 22.5):
+                for use_p in (0, 1):
+                    for dph in (None, 0, ph):            # CLKOUTD absent / unshifted / shifted   (/2)
+                        for d3ph in (None, 0, ph):       # CLKOUTD3 absent / unshifted / shifted (/3)
+                            outs = [(base, 0, 1e-2)]
+                            if use_p:
+                                outs.append((base, ph, 1e-2))
+                            if dph is not None:
+                                outs.append((base / 2, dph, 1e-2))
+                            if d3ph is not None:
+                                outs.append((base / 3, d3ph, 1e-2))
+                            if len(outs) > 1 and (dev == "GW1NR" or ph == 90):
+                                out.append({"fam": "gw1n", "dev": dev, "clkin": 27e6, "vm": 0.0, "outs": outs,
+                                            "with_resets": [int((i + len(outs)) % 2) for i in range(len(outs))]})
+        return out
 
 
 class GwOsc:
@@ -2186,7 +2394,8 @@ class GwOsc:
         try:
             o = GW1NOSC(c["device"], c["f"], margin=c["m"])
             P = instance_params(o, ("OSC",)) or {}
-            return {"status": "ok", "div": P.get("FREQ_DIV"), "dev": P.get("DEVICE")}
+            emit, wviol, _ = one_instance(o, ("OSC",), E.Sym().add(o.clk, "clk"))
+            return {"status": "ok", "div": P.get("FREQ_DIV"), "dev": P.get("DEVICE"), "emit": emit, "wviol": wviol}
         except Exception as e:
             return {"status": status_of(e), "exc": repr(e)}
 
@@ -2215,6 +2424,7 @@ class GwOsc:
                 viol.append("divider outside declared range")
             elif not (abs(osc / dv - f) <= f * m + SLACK * f):
                 viol.append("oscillator output %s vs requested %s margin %s" % (float(osc / dv), float(f), float(m)))
+            viol += emit_viol(E.expect_gwosc(c["device"], dv), real)
         elif real["status"] == "rejected":
             if exists is not None:
                 viol.append("refused although divider %d satisfies the request" % exists)
@@ -2254,13 +2464,21 @@ class Gw5a:
         try:
             o = GW5APLL(devname, dev)
             o.vco_margin = c["vm"]
+            cds = [mk_cd(i) for i in range(len(c["outs"]))]
+            wrs = [bool(x) for x in c["with_resets"]] if c.get("with_resets") else [False] * len(cds)
             do_calls(c, lambda: o.register_clkin(Signal(), c["clkin"]),
-                     [lambda i=i, f=f, p=p, m=m: o.create_clkout(mk_cd(i), f, with_reset=False, **kw_for(c, p, m))
+                     [lambda i=i, f=f, p=p, m=m: o.create_clkout(cds[i], f, with_reset=wrs[i], **kw_for(c, p, m))
                       for i, (f, p, m) in enumerate(c["outs"])])
             cfg = finalize_capture(o)
         except Exception as e:
             return {"status": status_of(e), "exc": repr(e)}
         P = instance_params(o, ("PLLA", "PLL")) or {}
+        sym = E.Sym().add(o.clkin, "clkin").add(o.locked, "locked").add(o.reset, "reset")
+        for n, t in o.clkouts.items():
+            sym.add(t[0], "clkout%d" % n)
+        emit, wviol, inst = one_instance(o, ("PLLA", "PLL"), sym)
+        if inst is not None:
+            wviol += E.clock_wiring(o, cds, [o.clkouts[n][0] for n in range(len(cds))], sym, with_reset=wrs)
         ports = instance_outputs(o, ("PLLA", "PLL"))
         k = len(c["outs"])
         return {"status": "ok", "idiv": cfg["idiv"], "fdiv": cfg["fdiv"], "mdiv": cfg["mdiv"], "vco": F(cfg["vco"]),
@@ -2269,7 +2487,8 @@ class Gw5a:
                       "FCLKIN": P.get("FCLKIN"),
                       "per": [(P.get("ODIV%d_SEL" % n), P.get("CLKOUT%d_EN" % n), P.get("CLKOUT%d_PE_COARSE" % n),
                                P.get("CLKOUT%d_PE_FINE" % n)) for n in range(7)]},
-                "wiring": all(ports.get("CLKOUT%d" % n) is o.clkouts[n][0] for n in range(k))}
+                "wiring": all(ports.get("CLKOUT%d" % n) is o.clkouts[n][0] for n in range(k)),
+                "cfg": cfg_numbers(cfg), "emit": emit, "wviol": wviol, "device": dev}
 
     def parse(self, c, line):
         return None
@@ -2332,6 +2551,8 @@ class Gw5a:
                         viol.append("unrequested output %d enabled" % n)
                 if not real["wiring"]:
                     viol.append("PLL output ports are not connected to the requested clock outputs in order")
+                if not viol:
+                    viol += emit_viol(E.expect_gw5a(real["device"], c["clkin"], real["cfg"], c["outs"]), real)
         elif real["status"] == "rejected":
             found = None
             for idiv in range(1, 64):
@@ -2390,7 +2611,10 @@ class Gw5a:
             else:
                 f = rng.choice([25e6, 50e6, 100e6, 125e6, 27e6, 74.25e6, 5e6, float(rng.randrange(5_000_000, 400_000_000))])
             outs.append((f, p, m))
-        return gen_flags(rng, {"fam": "gw5a", "dev": d["name"], "clkin": clkin, "vm": vm, "outs": outs})
+        c = {"fam": "gw5a", "dev": d["name"], "clkin": clkin, "vm": vm, "outs": outs}
+        if rng.random() < 0.4:
+            c["with_resets"] = [int(rng.random() < 0.6) for _ in outs]
+        return gen_flags(rng, c)
 
 
 # ------------------------------------------------------------------------------------------------------------------
@@ -2473,7 +2697,8 @@ class Trion:
             return {"status": status_of(e), "exc": repr(e)}
         if "M" not in b:
             return {"status": "crash", "exc": "no configuration written to the interface block"}
-        return {"status": "ok", "M": b["M"], "N": b["N"], "O": b["O"], "vco": F(b["VCO_FREQ"]),
+        return {"status": "ok", "M": b["M"], "N": b["N"], "O": b["O"], "vco": F(b["VCO_FREQ"]), "name": o.name,
+                "block": {k: v for k, v in b.items()},
                 "cs": [b.get("CLKOUT%d_DIV" % i) for i in range(len(c["outs"]))], "input_freq": b.get("input_freq"),
                 "clk_out": [(x[1], x[2]) for x in b["clk_out"]], "feedback": b["feedback"]}
 
@@ -2551,6 +2776,17 @@ class Trion:
                 if real["input_freq"] != c["clkin"] or real["feedback"] != c["fb"] or \
                         [tuple(x) for x in real["clk_out"]] != [tuple(x) for x in c["outs"]]:
                     viol.append("interface block does not carry the request (input_freq/feedback/clk_out)")
+                # every entry of the interface-designer block (what EFINIXPLL "emits")
+                nm = real["name"]
+                want = {"type": "PLL", "name": nm, "locked": nm + "_locked", "rstn": nm + "_rstn", "version": "V1_V2",
+                        "feedback": c["fb"], "input_clock_name": None, "input_clock": "CORE", "resource": "PLL_TL0",
+                        "input_signal": "clk_in", "input_freq": c["clkin"], "M": M, "N": N, "O": O,
+                        "VCO_FREQ": E.Approx(vco),
+                        "clk_out": [["out%d" % i, f_, p_, 0, False] for i, (f_, p_) in enumerate(c["outs"])]}
+                for i, cx in enumerate(cs):
+                    want["CLKOUT%d_DIV" % i] = cx
+                if not viol:
+                    viol += E.diff_dicts(want, real["block"], "interface block")
         elif real["status"] == "assertion":
             if c.get("exact") and self.solutions(c):
                 viol.append("refused although N,M,O,Cfbk,C = %s satisfies the request" % (self.solutions(c)[0],))
@@ -2594,5 +2830,104 @@ class Trion:
         return gen_flags(rng, {"fam": "trion", "clkin": 50e6, "outs": [(100e6, 0)], "fb": 0, "exact": True})
 
 
+class GateMate:
+    """CologneChip CC_PLL (colognechip.py): no divider search - the helper checks that the request fits the primitive
+    (CLK0/CLK90 at the base frequency, CLK180/CLK270 at 1x or 2x) and emits REF_CLK/OUT_CLK/CLKxxx_DOUB."""
+    fam = "gatemate"
+    MAXF = {"undefined": 250e6, "lowpower": 250e6, "economy": 312.5e6, "speed": 416.75e6}
+
+    def __init__(self, T):
+        pass
+
+    def lean_line(self, c):
+        return None
+
+    def parse(self, c, line):
+        return None
+
+    def compare(self, c, real, model):
+        return None
+
+    def real(self, c):
+        from migen import Signal
+        from litex.soc.cores.clock.colognechip import GateMatePLL
+        try:
+            o = GateMatePLL(perf_mode=c["perf"], low_jitter=c["lj"], lock_req=c["lr"])
+            cds = [mk_cd(i) for i in range(len(c["outs"]))]
+            sigs = {}
+
+            def mk(i, ph, f):
+                o.create_clkout(cds[i], f, with_reset=bool(c["with_resets"][i]), **({} if c.get("defaults") and ph == 0 else {"phase": ph}))
+                sigs[ph] = o._clkouts[ph][0]
+            do_calls(c, lambda: o.register_clkin(Signal(), c["clkin"], **({"usr_clk_ref": True} if c["usr"] else {})),
+                     [lambda i=i, ph=ph, f=f: mk(i, ph, f) for i, (ph, f) in enumerate(c["outs"])])
+            with quiet():
+                o.finalize()
+        except Exception as e:
+            return {"status": status_of(e), "exc": repr(e)}
+        sym = E.Sym().add(o._clkin, "clkin").add(o.locked, "locked").add(o.reset, "reset")
+        for ph, sg in sigs.items():
+            sym.add(sg, "clk%d" % ph)
+        insts = E.find_instances(o, ("CC_PLL",))
+        if len(insts) == 1:
+            sym.add(port_expr(insts[0], "o", "USR_PLL_LOCKED"), "lock_raw")
+        emit, wviol, inst = one_instance(o, ("CC_PLL",), sym)
+        if inst is not None:
+            wviol += E.clock_wiring(o, cds, [sigs[ph] for ph, _ in c["outs"]], sym, with_reset=[bool(x) for x in c["with_resets"]])
+            drv = [sym.tok(x) for x in comb_drivers(o, o.locked)]
+            if drv != ["(lock_raw&~reset)"]:
+                wviol.append("locked is driven by %s, expected USR_PLL_LOCKED & ~reset" % drv)
+        return {"status": "ok", "emit": emit, "wviol": wviol}
+
+    def legal(self, c):
+        phs = [ph for ph, _ in c["outs"]]
+        if not c["outs"] or any(ph not in (0, 90, 180, 270) for ph in phs) or len(set(phs)) != len(phs):
+            return False
+        if any(f > self.MAXF[c["perf"]] for _, f in c["outs"]):
+            return False
+        fmin = min(F(f) for _, f in c["outs"])
+        for ph, f in c["outs"]:
+            if ph in (0, 90) and F(f) != fmin:
+                return False
+            if ph in (180, 270) and F(f) not in (fmin, 2 * fmin):
+                return False
+        return True
+
+    def oracle(self, c, real):
+        viol = []
+        legal = self.legal(c)
+        if real["status"] == "ok":
+            if not legal:
+                viol.append("a request the CC_PLL cannot realise was accepted")
+            else:
+                viol += emit_viol(E.expect_gatemate(c["clkin"], {ph: f for ph, f in c["outs"]}, c["perf"], c["lj"], c["lr"],
+                                                    c["usr"]), real)
+        elif real["status"] == "assertion":
+            if legal:
+                viol.append("a realisable request was refused: " + real.get("exc", ""))
+        else:
+            viol.append("unexpected exception " + real.get("exc", ""))
+        return viol, False, None, None
+
+    def gen(self, rng):
+        perf = rng.choice(list(self.MAXF))
+        base = float(rng.choice([10e6, 25e6, 48e6, 50e6, 100e6, 125e6, 156.25e6, float(rng.randrange(1_000_000, 208_000_000))]))
+        phs = rng.sample([0, 90, 180, 270], rng.choice([1, 1, 2, 2, 3, 4]))
+        outs = []
+        for ph in phs:
+            f = base * 2 if ph in (180, 270) and rng.random() < 0.5 else base
+            outs.append((ph, f))
+        r = rng.random()
+        if r < 0.08:
+            i = rng.randrange(len(outs))
+            outs[i] = (outs[i][0], outs[i][1] * rng.choice([0.5, 2, 3, 1.5]))       # mostly unrealisable
+        elif r < 0.12:
+            outs.append((rng.choice(phs), base))                                     # duplicate phase
+        c = {"fam": "gatemate", "clkin": float(rng.choice([10e6, 25e6, 48e6, 100e6])), "perf": perf, "lj": rng.choice([0, 1]),
+             "lr": rng.choice([0, 1]), "usr": int(rng.random() < 0.3), "outs": outs,
+             "with_resets": [int(rng.random() < 0.5) for _ in outs]}
+        return gen_flags(rng, c)
+
+
 Xilinx.first_key = lambda self, real: (real["divclk"], real["mult"])
-FAMILY_CLASSES = [Xilinx, Ecp5, Ice40, Nx, NxOsc, NxOscFin, Intel, Gw1n, GwOsc, Gw5a, Trion]
+FAMILY_CLASSES = [Xilinx, Ecp5, Ice40, Nx, NxOsc, NxOscFin, Intel, Gw1n, GwOsc, Gw5a, Trion, GateMate]
